@@ -4,8 +4,10 @@ import (
 	"encoding/json"
 	"errors"
 	"fmt"
+	"hash/fnv"
 	"math/rand"
 	"os"
+	"sort"
 	"strings"
 
 	"golang.org/x/mod/sumdb"
@@ -38,7 +40,13 @@ func (w *clientRunWorld) Check(c *core.Case) ([]core.Violation, bool) {
 	if err := json.Unmarshal(c.In, &in); err != nil {
 		panic(err)
 	}
-	vs := execRun(in, nil)
+	name := "clientc01"
+	if w.forked {
+		name = "clientc13"
+	}
+	ev, done := core.RunTrace(name)
+	vs := execRun(in, ev)
+	done()
 	for i := range vs {
 		vs[i].Case = c
 	}
@@ -131,15 +139,28 @@ func execRun(in runIn, ev func(k string, f any)) []core.Violation {
 	}
 	ops.ev = emit
 	forgedPending := map[int]bool{} // leaf ids for which a forged record was served: also forge their leaf tile
+	// The adversary decides per (operation, file, how often that file was asked for), not in call order: tile
+	// reads of one lookup run on parallel goroutines, and a run must be the same run when it is executed again.
+	asked := map[string]int{}
 	ops.chaos = func(op string, f absFile) *scripted {
 		tl := ops.curTl
+		key := op + " " + f.String()
+		hsh := fnv.New64a()
+		fmt.Fprintf(hsh, "%d %d %s %d", in.Seed, in.Run, key, asked[key])
+		asked[key]++
+		rng := rand.New(rand.NewSource(int64(hsh.Sum64())))
 		if op == "ReadCache" {
 			// poisoned cache content, rarely
 			if rng.Float64() >= pFault/2 {
 				return nil
 			}
 		} else if f.Kind == "tile" && f.L == 0 {
+			var ids []int
 			for id := range forgedPending {
+				ids = append(ids, id)
+			}
+			sort.Ints(ids)
+			for _, id := range ids {
 				if int64(id)>>uint(h) == f.N && id-int(f.N)<<uint(h) < f.W && rng.Intn(4) != 0 {
 					return &scripted{fault: true, lab: &tileLab{Kind: "tforged", Tl: tl, Pos: id - int(f.N)<<uint(h) + 1}}
 				}
